@@ -142,7 +142,9 @@ CHECKS = {
         design='§4 C18'),
     'C14': dict(
         text='Theorems: counter = xor of the halves of SHA-256 of the lower-cased, forward-slashed, NUL-terminated '
-             'UTF-16LE path (outside the recorded /backup alias guard); case- and separator-insensitivity for every '
+             'UTF-16LE path outside the recorded /backup alias guard, and exactly the counter of the rewritten path '
+             '/title/<p[12:20]>/<p[20:28]>/data<p[28:]> inside it (C14_alias_exact: the complete behaviour; lengths and slices '
+             'count code points, as Python does); case- and separator-insensitivity for every '
              'input; ID0 word re-packing; accepted movable.sed lengths; read/write coupling by the CTR-wrapper '
              'theorems (C12).  Tied to SDRoot/SDFS/CryptoEngine by differential execution over keys, path spellings, '
              'OS and in-memory filesystems, root and nested opendir views, write/seek/read histories, with the raw '
@@ -173,8 +175,10 @@ CHECKS = {
         text='Theorems: NCSD cartridge header — rejection of wrong magic / zero media id, listed partitions = table '
              'entries with non-zero offset at offset*0x200 / size*0x200, partition view = window (C09); CDN — '
              'lower-case name first, upper-case fallback, missing files skipped without affecting other records '
-             '(selection = filter in TMD order); content views by C02/C09.  SD-title and the three key-supply modes are '
-             'modelled by composition of the C05/C08/C14 models and tied by correspondence.  Differential execution: the '
+             '(selection = filter in TMD order); SD title directory — the content loop lists exactly the records whose '
+             '<id>.app exists, in TMD order (C10_sdtitle_selection; run by the driver on every generated title); content '
+             'views by C02/C09.  The three key-supply modes are modelled by composition of the C05/C08/C14 models and tied by '
+             'correspondence.  Differential execution: the '
              'same NCCHs packaged as cartridge image, CDN directory (ticket / encrypted key + index / decrypted key, '
              'name cases, missing files), plain and SD-encrypted installed title (through SDRoot.open_title), on OS '
              'and in-memory filesystems, with monitors on listings, raw bytes and nested ExeFS files.',
